@@ -46,7 +46,10 @@ fn contains_raw(bytes: &[u8], t: &Topic) -> bool { bytes.windows(32).any(|w| w =
 async fn main() {
     let _a = rp_core::args();
     let mut rng = ChaCha20Rng::from_seed([7; 32]);
-    let topics: Vec<Topic> = (1..=3u8).map(|i| Topic::from([i * 17; 32])).collect();
+    // two topic families: unrelated byte patterns, and near-identical topics (a base topic and two that differ from it in
+    // the first resp. the last byte only)
+    let near = |pos: usize| { let mut b = [0x5Au8; 32]; b[pos] ^= 0x01; Topic::from(b) };
+    let families: [Vec<Topic>; 2] = [(1..=3u8).map(|i| Topic::from([i * 17; 32])).collect(), vec![Topic::from([0x5Au8; 32]), near(0), near(31)]];
     let (alice, bob) = (SigningKey::generate().verifying_key(), SigningKey::generate().verifying_key());
     // one extra node per topic in each address book
     let extra_a: Vec<TestNodeId> = (0..3).map(|_| SigningKey::generate().verifying_key()).collect();
@@ -54,7 +57,7 @@ async fn main() {
     let mut n = 0u64;
     let mut reported = std::collections::BTreeSet::new();
     let obl: [&str; 0] = [];
-    for amask in 0..8u8 { for bmask in 0..8u8 { for restricted in [true, false] { for shifting in [false, true] {
+    for (family, topics) in families.iter().enumerate() { for amask in 0..8u8 { for bmask in 0..8u8 { for restricted in [true, false] { for shifting in [false, true] {
         if shifting && !(amask == 0b011 && bmask == 0b001) { continue; }
         n += 1;
         let ta: HashSet<Topic> = (0..3).filter(|i| amask >> i & 1 == 1).map(|i| topics[i]).collect();
@@ -80,7 +83,7 @@ async fn main() {
         let mut brx = brx.map(move |m| { w2.lock().unwrap().push(encode_cbor(&m).unwrap()); Ok::<_, ()>(m) });
         let ra = pa.alice(&mut atx, &mut brx).await.map_err(|e| e.to_string());
         let rb = bh.await.unwrap();
-        let inp = json!({"alice_topics(mask)": amask, "bob_topics(mask)": bmask, "restricted_sharing": restricted, "bob_subscription_changes_mid_session": shifting});
+        let inp = json!({"alice_topics(mask)": amask, "bob_topics(mask)": bmask, "topic_family": if family == 0 { "unrelated" } else { "near-identical (base, first byte flipped, last byte flipped)" }, "restricted_sharing": restricted, "bob_subscription_changes_mid_session": shifting});
         let mut rep = |c: &str, o: serde_json::Value| { if reported.insert(c.to_string()) { rp_core::report(true, c, inp.clone(), o, &obl); } };
         let (Ok(ra), Ok(rb)) = (ra, rb) else { rep("protocol-run-failed", json!("alice or bob returned an error")); continue; };
         if ra.topics != want || rb.topics != want {
@@ -94,8 +97,8 @@ async fn main() {
             if rb.transport_infos.keys().any(|k| !allowed_from_alice.contains(k)) { rep("initiator-shares-node-outside-common-topics", json!({"shared": rb.transport_infos.len(), "allowed": allowed_from_alice.len()})); }
             if ra.transport_infos.keys().any(|k| !allowed_from_bob.contains(k)) { rep("acceptor-shares-node-outside-common-topics", json!({"shared": ra.transport_infos.len(), "allowed": allowed_from_bob.len()})); }
         }
-    } } } }
+    } } } } }
     println!("{}", json!({"summary": true, "evaluations": n, "distinct_nontrivial": n, "exhaustive": true,
-        "rule": "real alice/bob over channels for all 8x8 topic-set pairs over 3 topics x restricted/unrestricted sharing, address books with one extra node per topic; + one run where Bob's subscription changes between two reads",
+        "rule": "real alice/bob over channels for all 8x8 topic-set pairs over 3 topics (unrelated, and one byte apart) x restricted/unrestricted sharing, address books with one extra node per topic; + one run where Bob's subscription changes between two reads",
         "bound": "3 topics, 3 extra nodes per side", "violating_classes": reported}));
 }
